@@ -1332,6 +1332,11 @@ class sptensor:
         else:
             R = U[0].shape[1]
 
+        # Check that every factor used matches its mode and the common rank
+        for i in range(self.ndims):
+            if i != n and U[i].shape != (self.shape[i], R):
+                assert False, f"Entry {i} of list of arrays is wrong size"
+
         V = np.zeros((self.shape[n], R), order=self.order)
         for r in range(R):
             # Set up list with appropriate vectors for ttv multiplication
